@@ -1,5 +1,8 @@
 pub mod eng;
+pub mod adminprops;
+pub mod c19;
 pub mod engprops;
+pub mod vammprops;
 
 use crate::evidence::Tier;
 
@@ -8,6 +11,21 @@ pub fn run(prop: &str, tier: Tier) -> i32 {
         "C02" => engprops::run_c02(tier),
         "C03" => engprops::run_c03(tier),
         "C10" => engprops::run_c10(tier),
+        "C04" => engprops::run_c04(tier),
+        "C05" => engprops::run_c05(tier),
+        "C06" => engprops::run_c06(tier),
+        "C07" => engprops::run_c07(tier),
+        "C08" => engprops::run_c08(tier),
+        "C11" => engprops::run_c11(tier),
+        "C12" => engprops::run_c12(tier),
+        "C15" => engprops::run_c15(tier),
+        "C16" => engprops::run_c16(tier),
+        "C17" => engprops::run_c17(tier),
+        "C01" => vammprops::run_c01(tier),
+        "C19" => c19::run_c19(tier),
+        "C14" => adminprops::run_c14(tier),
+        "C20" => adminprops::run_c20(tier),
+        "C18" => vammprops::run_c18(tier),
         _ => {
             eprintln!("unknown property {}", prop);
             2
@@ -21,7 +39,15 @@ pub fn replay(path: &str) -> i32 {
     let v: serde_json::Value = serde_json::from_str(&s).expect("replay json");
     let prop = v["property"].as_str().unwrap_or("");
     let sig = v["signature"].as_str().unwrap_or("");
-    let viols = if engprops::oracle_for(prop).is_some() {
+    if prop == "C19" {
+        // value-level property: the replay file names the operands in its detail; re-run the sweep
+        println!("{}", v["detail"]);
+        return c19::run_c19(Tier::Quick);
+    }
+    let is_v = matches!(prop, "C01" | "C18") || (prop == "C17" && v["params"]["amounts"].is_array());
+    let viols = if is_v {
+        vammprops::replay_v(prop, &v["params"], &v["actions"])
+    } else if engprops::oracle_for(prop).is_some() {
         engprops::replay_eng(prop, &v["params"], &v["actions"])
     } else {
         eprintln!("no replay for {}", prop);
